@@ -59,6 +59,12 @@ func valueOf(code string) any {
 		return code
 	case code[0] == 'p':
 		return "POISON" + code[1:]
+	case code[0] == 'l': // non-comparable values: a slice, a map
+		n, _ := strconv.Atoi(code[1:])
+		return []int{n}
+	case code[0] == 'm':
+		n, _ := strconv.Atoi(code[1:])
+		return map[string]int{"v": n}
 	}
 	panic("bad code " + code)
 }
@@ -76,6 +82,14 @@ func codeOf(v any) string {
 		return "i" + strconv.Itoa(x)
 	case float64:
 		return "f" + strconv.Itoa(int(x))
+	case []int:
+		if len(x) == 1 {
+			return "l" + strconv.Itoa(x[0])
+		}
+	case map[string]int:
+		if len(x) == 1 {
+			return "m" + strconv.Itoa(x["v"])
+		}
 	case string:
 		if strings.HasPrefix(x, "POISON") {
 			return "p" + x[6:]
@@ -346,7 +360,11 @@ type genState struct {
 
 func (g *genState) val() string {
 	g.nextID++
-	switch g.r.IntN(12) {
+	switch g.r.IntN(14) {
+	case 12:
+		return "l" + strconv.Itoa(g.nextID)
+	case 13:
+		return "m" + strconv.Itoa(g.nextID)
 	case 0:
 		return "nil"
 	case 1:
